@@ -397,6 +397,20 @@ def fixed_checks(rep):
         ok = st == "ok" and seen and pred(*seen[0])
         if not ok:
             rep.violation({"clause": "arguments_differ_from_python_call", "pow_issue": False, "site": "LazyCall.eval"}, {"call": text, "status": st, "error": str(dm)[:100] if st != "ok" else "", "received": repr(seen[:1])[:200]})
+    # names taken from the caller evaluate to whatever they are bound to, as in Python - also values that are
+    # false or None (a binding to None is a binding: no outer scope is consulted)
+    for val in (None, 0, 0.0, False, "", [], 3):
+        seen.clear()
+        inner = {"g": g, "np": np, "nv": val}
+
+        def call_with_local(nv=val):
+            return design.build("y ~ 0 + g(x, nv, k=nv)", df, extra_namespace={"g": g, "nv": "OUTER"}, env=1)
+
+        for how, (st, dm) in (("extra_namespace", design.build("y ~ 0 + g(x, nv, k=nv)", df, extra_namespace=inner)), ("local_shadows_outer", call_with_local())):
+            rep.cov["evaluations"] += 1
+            ok = st == "ok" and seen and len(seen[-1][0]) == 2 and type(seen[-1][0][1]) is type(val) and seen[-1][0][1] == val and type(seen[-1][1].get("k")) is type(val)
+            if not ok:
+                rep.violation({"clause": "name_bound_to_false_value_not_passed_as_is", "pow_issue": False, "site": "VarLookupDict"}, {"value": repr(val), "how": how, "status": st, "error": str(dm)[:100] if st != "ok" else "", "received": repr(seen[-1:])[:160]})
     # quote style is kept in the name; textual variants are one term, different calls different terms
     for a, b, same in (("g(x,'a')", "g( x , 'a' )", True), ("g(x, 'a')", 'g(x, "a")', False), ("g(x, 1)", "g(x, 1.0)", False), ("g(x, k=1)", "g(x,k = 1)", True)):
         sa, da = design.build("y ~ 0 + " + a, df, extra_namespace=ns)
